@@ -112,8 +112,8 @@ var initAllowPrefixes = []string{
 	"github.com/biogo/store/llrb",
 	"github.com/openziti/foundation/v2/errorz", "github.com/openziti/foundation/v2/stringz",
 	"github.com/openziti/foundation/v2/concurrenz", "github.com/openziti/foundation/v2/genext",
-	"github.com/pkg/errors", "errors", "internal/reflectlite", "io", "strconv", "unicode/utf8", "internal/oserror",
-	"syscall", "io/fs", "sort", "slices", "cmp", "encoding/binary", "math", "math/bits", "sync/atomic", "internal/bytealg", "bytes", "strings", "unicode",
+	"github.com/pkg/errors", "io", "strconv", "unicode/utf8", "internal/oserror",
+	"syscall", "io/fs", "sort", "slices", "cmp", "encoding/binary", "math/bits", "sync/atomic", "bytes", "strings", "unicode",
 }
 
 func initAllow(path string) bool {
@@ -127,7 +127,7 @@ func initAllow(path string) bool {
 
 // packages whose globals may be read as zero values without running init
 var zeroOKList = map[string]bool{
-	"sync": true, "runtime": true, "internal/race": true, "internal/godebug": true,
+	"sync": true, "runtime": true, "errors": true, "internal/reflectlite": true, "math": true, "internal/race": true, "internal/godebug": true,
 	repoMod + "/zitiql": false,
 }
 
